@@ -34,6 +34,7 @@ type AppSpec struct {
 type LogSpec struct {
 	Name       string    `json:"name"`
 	Type       string    `json:"type"` // Logger, AsyncLogger, Console, File, RollingFile, Discard
+	RecName    string    `json:"rec_name,omitempty"` // Type RecLogger: the recorder it writes to
 	Tags       []string  `json:"tags,omitempty"`
 	Level      string    `json:"level,omitempty"`
 	Layout     string    `json:"layout,omitempty"`
@@ -154,6 +155,8 @@ func (l LogSpec) kvs(st Style) []kv {
 	}
 	out = append(out, layoutKVs("", l.Layout, l.Width, false)...)
 	switch l.Type {
+	case "RecLogger":
+		out = append(out, kv{"recName", l.RecName})
 	case "Logger", "AsyncLogger":
 		for i, r := range l.Refs {
 			p := fmt.Sprintf("appenderRef[%d].", i)
